@@ -56,6 +56,13 @@ class Sym:
         return self.init_val(key)
 
     def project(self, base, last, key):
+        if base[0] == "init" and isinstance(base[1], tuple):
+            # a projection of a place that still holds its entry value is the place one step deeper -- which may have been written
+            k2 = base[1] + (last,)
+            if k2 in self.mem:
+                return self.mem[k2]
+            if any(len(k) > len(k2) and k[:len(k2)] == k2 for k in self.mem):
+                return self.read_key(k2)
         if base[0] == "overlay":
             d = base[2]
             if (last,) in d:
